@@ -33,5 +33,5 @@ CONDITIONS = (
     + [X("skeleton", "c01.py", "h_skeleton", timeout=900, params={"m": m, "k0": k0, "k1": k1}, tiers=("thorough",),
          what="BEGIN/END/property line-kind vector: every accepted text is stable (single and multiple=True)",
          bound="%d lines, first two kinds pinned (%d,%d), 13 line kinds" % (m, k0, k1))
-       for m in (4, 5) for k0 in (0, 1, 2, 3) for k1 in range(13)]
+       for m in (4,) for k0 in (0, 1, 2, 3) for k1 in range(13)]
 )
